@@ -28,6 +28,10 @@ C = {
  "C16": dict(text="Per-evaluation switch settings (cache 5 x effects 3 x logging 3) inside histories on a long-lived graph of the caching family: values equal the all-off fresh value; disabled cache neither reads nor writes; no effect / log record when disabled; exactly one INFO record per dataset evaluation not served from a cache (counted by a pass-through handler).", ref="5 C16"),
  "C17": dict(text="spec/CacheImpl.tla: Cached.evaluate micro-steps against a contract-respecting but unreliable backend; TLC checks FaultyStillCorrect / AtMostRecompute for every fault assignment; every complete history of the exported graph is replayed with a scripted Cache subclass (call sequence, values, run counts), and random longer histories are validated by TLC (Trace_Cache).",
              note="one cached dataset, two option values, faults on the first 5 (quick) / 8 (thorough) backend calls exhaustively, random beyond; the backend never returns a wrong value (contract)", tech="TLC model checking of a micro-step model + exhaustive replay of its histories with fault injection + TLC trace validation", ref="5 C17"),
+ "C13": dict(text="spec/Pipelines.tla: pipelines denote step sequences; TLC checks Assoc / IdLeft / IdRight / Compose on the bounded term universe and exports every bracketing of every sequence of <= 4 (quick) / 5 (thorough) steps plus a 33-helper table (parameter as constant and as option); each case replayed on real pipelines: iteration order, transform, e >> p, keys/explain, composition.",
+             note="uninterpreted steps; helpers on integer / list inputs only; division compared as IEEE quotient", tech="TLA+ term algebra + helper table checked by TLC; every generated case replayed into real pipelines", ref="5 C13"),
+ "C19": dict(text="Dataset classes as named member collections of the expression machine: attributes, class-level keys/validate/explain (union over members incl. an inherited one from a parent dataset class that was used first), equality over ALL pairs of dictionaries iff the specification's restricted options are equal, repr shows every reported key with its value.", ref="5 C19"),
+ "C20": dict(text="Graphs built from importable callables pickled with every protocol (cold and warm caches) in-process and into a freshly started interpreter: outcomes and keys of the copy equal a fresh original's for every dictionary of the family; further register()+evaluate works on the copy. One open known finding (decorator form).", ref="5 C20"),
  "C02": dict(text="Body/effect execution counters against the specification's demand analysis (Permit): one run per distinct demand, none on exact repeat / unmentioned keys / permuted key order; effects only after their body.", ref="5 C02"),
 }
 checks = []
